@@ -32,7 +32,9 @@ from ..common import check_invariants
 
 PROP = "C20"
 MOD = "nv.checks.c20"
-REPO = "/repo/numpoly"
+import os
+
+REPO = os.environ.get("NV_REPO", "/repo") + "/numpoly"
 
 
 # ----------------------------------------------------------------------------- source extraction
@@ -427,6 +429,29 @@ def body(ctx: H.BaseCtx):
                 env = {n: numpy.int64(v) if not ctx.symbolic else v for n in names}
                 r = p(**env)
                 ctx.expect_model(r, M.amap(lambda x: x.subst({n: v for n in names}), mp), "call(%d)" % v)
+        elif op == "text":
+            # native runs only (file I/O): same encoding on both legs; the file either loads back as the same polynomial
+            # or the round trip raises -- never a different monomial
+            if not ctx.symbolic:
+                import os
+                import tempfile
+
+                for enc in (None, "utf-8", "latin1", "utf-16"):
+                    fd, path = tempfile.mkstemp(suffix=".txt")
+                    os.close(fd)
+                    try:
+                        kw = {} if enc is None else {"encoding": enc}
+                        try:
+                            numpoly.savetxt(path, p, **kw)
+                            q = numpoly.loadtxt(path, **kw)
+                        except Exception:
+                            continue  # refusing is allowed, confusing is not
+                        if not isinstance(q, numpoly.ndpoly):
+                            ctx.fail("type", "text round trip (encoding=%s) returned %s" % (enc, type(q).__name__))
+                            continue
+                        ctx.expect_model(q.reshape(p.shape) if q.size == p.size else q, mp, "text round trip (encoding=%s)" % enc, rtol=1e-9)
+                    finally:
+                        os.unlink(path)
         elif op == "pickle":
             q = pickle.loads(pickle.dumps(p))
             ctx.expect_model(q, mp, "pickle")
@@ -525,12 +550,17 @@ def gen_cases(tier: str, seed: int) -> List[Dict]:
     for e in lad:
         add("raw-view", P("a", ("q0", "q1"), [[e, 0], [1, e], [0, 0]], rng.choice([(), (2,)])))
         add("pickle", P("a", ("q0", "q2"), [[e, 1], [0, e]]))
+        add("text", P("a", ("q0", "q2"), [[e, 1], [0, e]], (2,)))
         add("derivative", P("a", ("q0", "q1"), [[e, 1], [1, e], [0, 0]]))
         add("call", P("a", ("q0",), [[e], [1], [0]]))
         add("align", P("a", ("q0",), [[e], [0]]), P("b", ("q1",), [[e + 1]], (2,)))
         for k in (2, 3):
             if e * k <= 60000 and (not quick or rng.random() < 0.6):
                 add("pow", P("a", ("q0",), [[e], [0]] if e * k < 400 else [[e]]), k=k)
+    # text files: key characters that are one byte in latin1 but not valid UTF-8 on their own, and the first ones latin1 cannot write
+    off = extract_offset()
+    for e in sorted({128 - off, 100, 0xC3 - off, 0xE9 - off, 255 - off, 256 - off, 300}):
+        add("text", P("a", ("q0",), [[e], [1]], (2,)))
     return cases
 
 
